@@ -1336,10 +1336,24 @@ class Message(ABC):
         self._serialized_on_wire = True
         proto_meta = self._betterproto
         read = 0
-        for parsed in load_fields(stream):
+        for parsed in load_fields(stream) if size != 0 else ():
+            if size is not None:
+                # If we have now loaded the expected length of the message, stop
+                # after this field
+                prev = read
+                read += len(parsed.raw)
+                if read > size:
+                    raise ValueError(
+                        f"Expected message of size {size}, can only read "
+                        f"either {prev} or {read} bytes - there is no "
+                        "message of the expected size in the stream."
+                    )
+
             field_name = proto_meta.field_name_by_number.get(parsed.number)
             if not field_name:
                 self._unknown_fields += parsed.raw
+                if read == size:
+                    break
                 continue
 
             meta = proto_meta.meta_by_field_name[field_name]
@@ -1387,18 +1401,8 @@ class Message(ABC):
             else:
                 setattr(self, field_name, value)
 
-            # If we have now loaded the expected length of the message, stop
-            if size is not None:
-                prev = read
-                read += len(parsed.raw)
-                if read == size:
-                    break
-                elif read > size:
-                    raise ValueError(
-                        f"Expected message of size {size}, can only read "
-                        f"either {prev} or {read} bytes - there is no "
-                        "message of the expected size in the stream."
-                    )
+            if read == size:
+                break
 
         if size is not None and read < size:
             raise ValueError(
